@@ -94,7 +94,64 @@ def replay_all(repo, by_ob, scratch, log):
             if len(fails) >= 3:
                 break
     log.append("two-path replay: %d expressions, %d mismatches (exit %s)" % (len(exprs), len(fails), p.returncode))
+    more = clause_phase(binary, scratch, log)
+    if more is None and not fails:
+        return {ob: None for ob in by_ob}
+    fails = fails + (more or [])
     return {ob: fails for ob in by_ob}
+
+
+# ---- clause-shaped contexts: the operands are head arguments (temporaries living in argument registers), the goal is an
+# inlined comparison or is/2 with compound operands, and the variables are used again afterwards. The compiled clause must
+# give the answer the same goals give when each is called through call/1 (run-time evaluator, no register allocation).
+SIDES = ["A", "B", "A+1", "B+1", "abs(A)", "A*B", "3+4", "7", "-A", "A-B"]
+CMPS = ["<", "=:=", ">="]
+FOLLOW = ["X = r(A,B)", "X is A+B", "A =< B+100, X = r(A,B)", "X is -(A*2) + B"]
+HEADS = ["(A, B, X)", "(B, A, X)", "(X, A, B)"]
+PAIRS = [(10, 3), (-5, 2), (0, 0), (1, 3), (3, 1), (7, 7)]
+
+
+def clause_phase(binary, scratch, log):
+    lines = [":- use_module(library(format)).", ":- use_module(library(lists)).", ":- use_module(library(between)).",
+             "run((G1, G2)) :- !, run(G1), run(G2).", "run(G) :- call(G).",
+             "res(G, X, R) :- ( catch(G, error(E, _), R = err(E)) -> ( var(R) -> R = yes(X) ; true ) ; R = no ).",
+             "cmp(K, A, B, C, R) :- ( C == R -> true ; format(\"MISMATCH ~d ~q compiled=~q runtime=~q~n\", [K, A-B, C, R]) )."]
+    bodies, tail, tail2 = [], [], []
+    k = 0
+    for l in SIDES:
+        for r in SIDES:
+            if "A" not in l + r and "B" not in l + r:
+                continue
+            for op in CMPS:
+                for f in FOLLOW:
+                    h = HEADS[k % len(HEADS)]
+                    body = "%s %s %s, %s" % (l, op, r, f)
+                    lines.append("c%d%s :- %s." % (k, h, body))
+                    tail.append("b(%d, A, B, X, (%s))." % (k, body))
+                    tail2.append("h(%d, A, B, X, c%d%s)." % (k, k, h))
+                    bodies.append((h, body))
+                    k += 1
+    lines += tail + tail2
+    lines.append("pair(A, B) :- member(A-B, [%s])." % ", ".join("(%d)-(%d)" % p for p in PAIRS))
+    lines.append("main :- between(0, %d, K), pair(A, B), h(K, A, B, X, G), res(G, X, C), b(K, A, B, Y, Body), res(run(Body), Y, R), cmp(K, A, B, C, R), fail." % (k - 1))
+    lines.append("main :- write('DONE'), nl, halt.")
+    lines.append(":- initialization(main).")
+    path = os.path.join(scratch, "replay_paths_clauses.pl")
+    open(path, "w").write("\n".join(lines) + "\n")
+    p = subprocess.run([binary, "-f", "--no-add-history", path], capture_output=True, text=True, timeout=900, stdin=subprocess.DEVNULL)
+    fails, n = [], 0
+    for line in p.stdout.split("\n"):
+        m = re.match(r"MISMATCH (\d+) (.*) compiled=(.*) runtime=(.*)$", line)
+        if m:
+            n += 1
+            if len(fails) < 25:
+                h, body = bodies[int(m.group(1))]
+                fails.append({"goal": "p%s :- %s.   called with A-B = %s" % (h, body, m.group(2)), "got": ["compiled", m.group(3)], "expected": ["runtime", m.group(4)], "op": body, "a": None, "b": None})
+    if "DONE" not in p.stdout and not fails:
+        log.append("clause-shaped replay did not run to the end: " + (p.stdout + p.stderr)[-300:])
+        return None
+    log.append("clause-shaped replay: %d clauses x %d operand pairs, %d mismatches (exit %s)" % (k, len(PAIRS), n, p.returncode))
+    return fails
 
 
 def rerun(rec, repo):
